@@ -396,6 +396,12 @@ impl<'e> EventLoop<'e> {
                     {
                         _ = consumer.wait_event(Some(SLICE));
                     }
+                    // Everything accepted has run. Stop the pool itself, so that whoever
+                    // still waits for a task that will never complete gets an error
+                    // instead of blocking forever.
+                    if CoroutinePool::stop(&mut **consumer, Duration::ZERO).is_err() {
+                        error!("{} stop pool failed !", consumer.name());
+                    }
                     // notify stop flags
                     {
                         let (lock, cvar) = &*consumer.stop.clone();
